@@ -160,6 +160,8 @@ def ev(e, env):
         if d in ("hasattr",) and len(e.args) == 2:
             o = ev(e.args[0], env)
             nm = ev(e.args[1], env)
+            if not isinstance(nm, str):
+                raise Raised("TypeError", e)  # hasattr(): attribute name must be string
             if isinstance(o, (Obj, Fake)):
                 return nm in o.attrs
         if d in ("TypeError", "ValueError"):
